@@ -18,6 +18,10 @@ def isBrace (c : Char) : Bool := c == '(' || c == ')'
 def trimBraces (s : List Char) : List Char :=
   ((s.dropWhile isBrace).reverse.dropWhile isBrace).reverse
 
+/-- `str::trim_matches(&[..])` for a set of characters -/
+def trimMatches (cs : List Char) (s : List Char) : List Char :=
+  ((s.dropWhile (cs.contains ·)).reverse.dropWhile (cs.contains ·)).reverse
+
 /-- `str::split(',')`: always at least one piece. -/
 def splitComma : List Char → List (List Char)
   | [] => [[]]
